@@ -8,7 +8,7 @@ from vlib import gen, opcheck, tol
 from vlib.runner import Violation, sut
 
 ID = "C07"
-BUDGET = {"quick": 1600, "thorough": 30000}
+BUDGET = {"quick": 1600, "thorough": 64000}
 RULE = ("Generated: smooth&decomposable DAGs with real or complex parameters (complex embeddings, polynomial "
         "coefficients and sum weights under complex-lse-sum; real everything under all semirings) over inputs "
         "with a conjugation rule (embedding, categorical probs/logits, Gaussian with/without log-partition, "
